@@ -3,7 +3,8 @@ verus! {
 
 /// well-formed pool record: the three per-asset vectors are aligned and denoms are pairwise distinct
 pub open spec fn pool_wf(p: PoolInfo) -> bool {
-    p.assets@.len() == p.asset_decimals@.len()
+    2 <= p.assets@.len() <= 4 && (p.pool_type is ConstantProduct ==> p.assets@.len() == 2)
+    && p.assets@.len() == p.asset_decimals@.len()
     && p.assets@.len() == p.asset_denoms@.len()
     && (forall|i: int| 0 <= i < p.assets@.len() ==> #[trigger] p.assets@[i].denom@ == p.asset_denoms@[i]@)
     && (forall|i: int, j: int| 0 <= i < j < p.assets@.len() ==> #[trigger] p.assets@[i].denom@ != #[trigger] p.assets@[j].denom@)
